@@ -5,8 +5,9 @@ PROPS = {
         "technique": "Verus function contracts on the mechanically extracted bodies of b3sum/src/main.rs that decide the "
                      "statement's two halves: write_hex_output / hash_one_input (what is printed) and check_one_line / "
                      "check_one_checkfile / main (what --check counts and what the exit status is), over a ghost stdout "
-                     "log, a file-system function and a line-source model; hash_path / write_raw_output / Args::parse "
-                     "are assumed contracts (partial claim: see level_note)",
+                     "log, a file-system function and a line-source model; hash_path's real body is verified against a "
+                     "model of blake3::Hasher whose clauses are the contracts C02/C03/C11 verify on the crate; "
+                     "write_raw_output / Args::parse are assumed contracts (partial claim: see level_note)",
         "level_text": "unbounded deductive proof (Verus/z3) for the FUNCTION-LEVEL half of the statement, every line, path, "
                       "checkfile length and number of inputs: write_hex_output appends the lowercase hex of exactly "
                       "S[pos..pos+length] of the reader it is given (hash_one_input: of the reader hash_path positioned at "
@@ -21,8 +22,9 @@ PROPS = {
                       "the environment failed (argument parsing, key reading, pool construction, a read error)",
         "level_note": "PARTIAL: the process-level half of C12 (clap's argument grammar and conflicts, reading the key from "
                       "stdin, the real stdout / stderr, File::open / BufReader / stdin selection in check_one_checkfile, "
-                      "rayon_core's pool, --raw output, mmap vs read paths inside hash_path) is NOT under contract: "
-                      "hash_path, write_raw_output and Args::parse are ASSUMED contracts, the reader-selection prologue of "
+                      "rayon_core's pool, --raw output) is NOT under contract: "
+                      "write_raw_output and Args::parse are ASSUMED contracts, hash_path is verified over ASSUMED models of "
+                      "blake3::Hasher / File / stdin, the reader-selection prologue of "
                       "check_one_checkfile is replaced by a line-source model (its loop is the real code), the closure "
                       "passed to ThreadPool::install is verified as main's own block and process::exit(c) as `return` of "
                       "a status; that the stream hash_path returns IS the BLAKE3 output of the file in the selected mode is "
@@ -49,9 +51,9 @@ PROPS = {
         "uncovered": [
             "argument parsing (clap derive: conflicts / requires between --check, --raw, --keyed ...; Args::parse's body: "
             "default `-`, the --raw single-file rule, selection of the base hasher) - assumed contract only",
-            "hash_path's body (which of update_reader(stdin) / update_reader(File) / update_mmap_rayon is used, that the "
-            "base hasher is cloned, finalize_xof + set_position(seek)) - assumed contract; the bounded exploration of the "
-            "thorough tier runs the real binary over mode / seek / length combinations",
+            "below hash_path: that blake3::Hasher / File / stdin behave as the b3sum-side model says is C02/C03/C10/C11 on the "
+            "crate (verified there) plus the OS; the bounded exploration of the thorough tier runs the real binary over "
+            "mode / seek / length combinations",
             "--raw output (write_raw_output: io::copy of output.take(len) to stdout) - assumed, no claim about the bytes",
             "stdin as a checkfile, File::open errors, BufReader line splitting (a final line without terminator, CRLF) are "
             "behind the line-source model; stderr diagnostics (the WARNING summary, error texts) are not modelled",
@@ -61,9 +63,16 @@ PROPS = {
             "counter saturation: more than 2^64-1 failing lines still give a non-zero status (sat_add), proved",
         ],
         "assumptions": [
-            "hash_path (ASSUMED): Ok(reader) => the reader is positioned at --seek on the stream sp_fs_stream(lossy path); "
-            "Err => sp_fs_stream(lossy path) is None; the file system and the options do not change during the run; paths "
-            "are identified by their lossy rendering",
+            "hash_path (VERIFIED body): Ok(reader) => the reader is at --seek on sp_stream_for(args, lossy path) = the stream "
+            "of (mode of the base hasher, bytes it had absorbed ++ bytes of the file / of stdin for `-`, refused with "
+            "--keyed); Err => that input is unreadable. Models ASSUMED for it (prelude/strmodel.rs): blake3::Hasher "
+            "{clone copies (mode, absorbed); update_reader(r) appends exactly r's bytes or fails; update_mmap_rayon(path) "
+            "appends exactly the file's bytes or fails; finalize_xof(&self) -> reader at 0 on sp_stream_id(mode, absorbed)}, "
+            "OutputReader::set_position, File::open, io::stdin().lock(), `path == Path::new(\"-\")` (vf_path_is_dash); "
+            "@subst: update_reader / update_mmap_rayon -> vf_* (their `&mut Self` result is dropped by the real code)",
+            "axiom_fs_fixed (ASSUMED): sp_fs_stream(path) == sp_stream_for(args, path) for the Args of this run - the file "
+            "system, stdin's bytes and the options do not change during the run; paths are identified by their lossy "
+            "rendering",
             "Args::parse (ASSUMED): Ok(a) => a is sp_the_args(), at least one file argument, exactly one with --raw; Err => "
             "sp_env_failed()",
             "vf_open_checkfile / VfLineReader::read_line (ASSUMED, replaces the reader-selection prologue of "
